@@ -74,7 +74,7 @@ func c04Decider(s *gen.Spec) []string {
 }
 
 func init() {
-	sizes := map[core.Tier]int{core.Quick: 40000, core.Thorough: 1500000}
+	sizes := map[core.Tier]int{core.Quick: 40000, core.Thorough: 4000000}
 	core.Register(&core.Prop{
 		ID:    "C04",
 		Level: "exploration",
